@@ -7,11 +7,17 @@ Requests:
   `rr <api key> <ver> <frame len> <k> <reader> => <ok <consumed>|err|panic>`
       model: protocol.ReadResponse under its contract (Props/C17 `Decoder`): error on every strict prefix, on the full
       frame ok having consumed exactly the frame.
+  `tp <scenario> <frame len> <k> => <first> <next> <conn> <data>`   Transport/Writer end to end: the call hitting the cut
+      fails (the Writer's succeeds by retrying), the follow-up calls succeed, on a connection other than the cut one,
+      the records in the broker's log are intact.
+  `tt <scenario> <k> <T.* events> => accept`   trace acceptance by the TransportConn LTS (Model/TransportConn.lean);
+      `holds` = no event uses a connection after its exchange failed (checked directly on the trace).
 Answer: `model=<…> holds=<0|1>`; `holds` is the property monitor on the IMPLEMENTATION's output: a cut response gives
 an error (never ok, never panic, never hang), the Conn then fails the next operation, records handed out are a prefix
 of the records sent.
 -/
 import Oracle.ConnCommon
+import KafkaVerif.Model.TransportConnC17
 
 namespace KV.OracleC17
 open KV KV.Reader KV.ConnOps KV.OracleConn
@@ -34,6 +40,39 @@ def modelConn (topic : Bytes) (a : OpInst) (k : Nat) (nextBody : Bytes) : Option
     | some (rn, _) => some s!"{showOutcome ra} {showOutcome rn} {if a.name == "fetch" then "prefix" else "-"}"
     | none => none
 
+/-! Transport path -/
+
+def parseId (s : String) : Option Nat := (s.drop 1).toString.toNat?     -- "#12"
+
+def parseTEv (s : String) : Option (Option TransportConn.Ev) :=
+  match s.splitOn ":" with
+  | ["T.New", c, g, _] => (parseId c).bind fun c => (parseId g).map fun g => some (.new c g)
+  | ["T.Grab", c] => (parseId c).map fun c => some (.grab c)
+  | ["T.Recv", c] => (parseId c).map fun c => some (.recv c)
+  | ["T.Done", c, ok, nr] => (parseId c).map fun c => some (.done c (ok == "true") (nr == "true"))
+  | ["T.Release", c, k] => (parseId c).map fun c => some (.release c (k == "true"))
+  | ["T.Remove", c] => (parseId c).map fun c => some (.remove c)
+  | ["T.CloseIdle", g, _] => (parseId g).map fun g => some (.closeIdle g)
+  | ["T.Exit", c] => (parseId c).map fun c => some (.exit c)
+  | "T.New" :: c :: g :: _ => (parseId c).bind fun c => (parseId g).map fun g => some (.new c g)
+  | _ => none
+
+def parseTrace (s : String) : Option (List TransportConn.Ev) :=
+  if s == "-" then some [] else ((s.splitOn ",").mapM parseTEv).map (·.filterMap id)
+
+/-- property monitor on a recorded trace, written directly (no LTS): once an exchange on c failed with anything but
+ErrNoRecord, no later event grabs / receives on / completes on / releases / removes c. -/
+def noReuse : List TransportConn.Ev → Bool
+  | [] => true
+  | .done c false false :: rest => rest.all (fun e => !TransportConn.uses c e) && noReuse rest
+  | _ :: rest => noReuse rest
+
+/-- expected outcome of the call that hits the cut -/
+def firstExpected (scenario : String) : String :=
+  if scenario.startsWith "writer.WriteMessages/metadata" || scenario.startsWith "reader." then "returned"
+  else if scenario.startsWith "writer.WriteMessages" then "ok"     -- the Writer retries on a new connection
+  else "err"
+
 def step (line : String) : String :=
   match line.splitOn " => " with
   | [req, impl] =>
@@ -46,6 +85,25 @@ def step (line : String) : String :=
         | none, _ => "bad-op"
         | _, none => "bad-frame: body is not an encoding of the Spec layout"
       | _, _, _, _ => "bad-args"
+    | ["tp", sc, ls, ks] =>
+      match ls.toNat?, ks.toNat? with
+      | some len, some k =>
+        let cut := k < len
+        let m := if cut then s!"{firstExpected sc} ok new intact" else s!"{if firstExpected sc == "returned" then "returned" else "ok"} ok - intact"
+        let h := match words impl with
+          | [first, next, conn, data] =>
+            first != "hang" && next == "ok" && data == "intact" && (if cut then conn == "new" && first == firstExpected sc else conn == "-")
+          | _ => false
+        s!"model={m} holds={if h then 1 else 0}"
+      | _, _ => "bad-args"
+    | ["tt", _, _, tr] =>
+      match parseTrace tr with
+      | some evs =>
+        let m := match TransportConn.firstRejected [] evs 0 with
+          | none => "accept"
+          | some i => s!"reject@{i}"
+        s!"model={m} holds={if noReuse evs then 1 else 0}"
+      | none => "bad-trace"
     | ["rr", _, _, ls, ks, _] =>
       match ls.toNat?, ks.toNat? with
       | some len, some k =>
